@@ -71,7 +71,10 @@ class PortfolioSpec:
 
     def transact_asset(self, asset, quantity, dt, price, commission):
         """one fill: cash -= price*quantity + commission (exactly once); holdings += quantity; mark = fill price"""
-        self._refuse(OR_(dt < self.clock, AND_(self.held(asset), dt < self.pclk(asset))), ValueError)
+        if self.mode == 'sym':
+            self._refuse(OR_(dt < self.clock, AND_(self.held(asset), dt < self.pclk(asset))), ValueError)
+        else:
+            self._refuse(dt < self.clock or (bool(self.held(asset)) and dt < self.pclk(asset)), ValueError)
         self.clock = dt
         total = price * quantity + commission
         newq = self.qty(asset) + quantity
